@@ -32,7 +32,7 @@ import time
 import traceback
 from typing import Any, Callable, Dict, Iterator, List, Optional, Sequence, Tuple
 
-from bounded.grammars import GRAMMARS, START_SYMBOLS, reachable_nonterminals
+from bounded.grammars import GRAMMARS, reachable_nonterminals
 
 # --------------------------------------------------------------------------- #
 # Templates
@@ -346,12 +346,6 @@ def settings_key(s: Dict[str, Any]) -> str:
     )
 
 
-def _base_start(grammar_name: str) -> Optional[str]:
-    """``start_symbol`` used when the grid says "unset": None, except for the
-    grammar that was designed around an inner root."""
-    return None
-
-
 def make_case(tpl: Dict[str, Any], s: Dict[str, Any], timeout_seconds: int = 10,
               n_solve: int = 10, n_post: int = 5) -> Dict[str, Any]:
     s = dict(s)
@@ -367,7 +361,7 @@ def make_case(tpl: Dict[str, Any], s: Dict[str, Any], timeout_seconds: int = 10,
 
 
 def select_cases(tier: str, seed: int, salt: str = "C01", quick_total: int = 150,
-                 thorough_per_template: int = 40) -> Tuple[List[Dict[str, Any]], Dict[str, Any]]:
+                 thorough_per_template: int = 30) -> Tuple[List[Dict[str, Any]], Dict[str, Any]]:
     """Deterministic case list.
 
     quick: every template once with a seed-drawn grid point, then default
